@@ -123,7 +123,7 @@ def gen_order_op(r: random.Random, w: World, acc: List[str], p_market: float, p_
     if r.random() < p_ttl:
         op["ttl"] = r.choice(ttls)
     if r.random() < 0.04:
-        op["typ"] = r.choice(["np", "fl", "fr"])
+        op["typ"] = r.choice(["np", "fl", "fr", "dc", "pk"])
     return op
 
 
@@ -838,6 +838,10 @@ def gen_agents(r: random.Random, profile: str = "agents") -> Dict[str, Any]:
     for i in range(r.randint(1, 3)):
         w.add_session(r.randint(3, 15), True, r.random() < 0.8, max_normal=r.choice([2, 4, 8]), max_hft=r.choice([1, 3]),
                       rate=r.choice([1.0, 0.5]))
+    if r.random() < 0.1:
+        w.probes["AUD"] = {"hooks": [{"kind": "market", "before": False, "times": None}], "audit": True}
+        w.cfg["AUD"] = {"class": "ProbeEvent"}
+        w.sessions[0].setdefault("events", []).append("AUD")
     if with_index and r.random() < 0.3:
         w.cfg["TH"] = {"class": "TradingHaltRule", "targetMarkets": [r.choice(plain)], "triggerChangeRate": 0.01,
                        "haltingTimeLength": r.randint(2, 5), "enabled": True}
